@@ -2,10 +2,10 @@ from vp.core import Query
 from vp.skel import KIT_RULES
 
 LEVEL = "model_checking"
-UNITS = ["src/sp/transport/tcp/tcp.c", "src/sp/transport/socket/sockfd.c", "src/sp/transport/ipc/ipc.c", "src/core/aio.c (nni_aio_iov_advance/count/set_iov)"]
+UNITS = ["src/sp/transport/tcp/tcp.c", "src/sp/transport/socket/sockfd.c", "src/sp/transport/ipc/ipc.c", "src/core/aio.c (nni_aio_iov_advance/count/set_iov)", "src/supplemental/websocket/websocket.c (ws_frame_prep_tx, ws_mask_frame, ws_read_finish)", "src/core/message.c (nni_chunk_insert: inproc header pull-up)"]
 RULE = "Inductive steps over the framing invariant: one query per (transport, step, concrete header/body size); transfer size n, all length values, RECVMAXSZ, payload and handshake bytes symbolic."
 BOUNDS = "protocol header 0..64 bytes (concrete 0,4,8,64), body 0..3 bytes on transmit / 1..3 on receive, one partial transfer of ANY size followed by completion"
-OUTSIDE = "kernel/epoll behaviour, TLS, websocket framing (C16), inproc hand-off; the induction from one step to all segmentations is argued in DESIGN.md"
+OUTSIDE = "kernel/epoll behaviour, TLS, websocket frame header decoding (C16), inproc hand-off other than the header insert; the induction from one step to all segmentations is argued in DESIGN.md"
 ASSUMPTIONS = ["aio model env_aio.c (iov arithmetic proved equivalent to the real core/aio.c by the iov queries)", "message model env_msg.c", "byte stream stubbed (records requests, completes with chosen counts)"]
 ENV = ["env_alloc.c", "env_misc.c", "env_sync.c", "env_aio.c", "env_msg.c", "env_pipe.c", "env_libc.c"]
 TUS = ["core/list.c", "core/options.c"]
@@ -41,6 +41,17 @@ def queries(tier):
     for nio in (1, 2, 3):
         qs.append(Query("iov-advance-nio%d" % nio, "c01/iov.c", tus=["core/list.c"], env=["env_alloc.c", "env_misc.c", "env_sync.c"], defs={"NIO": nio},
                         unwind=12, timeout=300, params={"kernel": "real nni_aio_iov_advance/iov_count", "segments": nio}))
+    # websocket framing of SP messages: the frame writer and the reassembly kernel of C16
+    from props import C16
+    for q in C16.queries(tier):
+        if q.name.startswith(("ws-preptx", "ws-reassemble")):
+            qs.append(q)
+    # inproc delivers raw messages by inserting the protocol header in front of the body (nni_msg_insert)
+    from props import C17
+    for q in C17.queries(tier):
+        if q.name.startswith("chunk-insert"):
+            q.group = "~" + q.group
+            qs.append(q)
     return qs
 
 MANIFEST = {
